@@ -22,7 +22,13 @@ RULE = ("cases = corpus + every timestamp sequence of length <=4 over 0..3 (thor
         "milliseconds pass 2^64 (2^64 ms + 384, 2^55 s), the values just below / at / above 2^64 ms, 2^54 s and 2^63 s, sub-millisecond parts "
         "(999_999 ns, 1_000_001 ns, 1 s + 999_999_999 ns) - 22 durations x 7 fixed out-of-order sequences (small and huge timestamps) x "
         "{as max_delay with every late strategy, as max_lateness behind 5 watermark strategies, as both} + random ones; the model strategy "
-        "carries the effective delay C13.durMillisU64 = `d.as_millis() as u64` (floor of total ns / 10^6, low 64 bits). Each case is run on WatermarkedStream (real code) and on the Lean model; "
+        "carries the effective delay C13.durMillisU64 = `d.as_millis() as u64` (floor of total ns / 10^6, low 64 bits) "
+        "+ a DECORATION family: events that differ in every StreamEvent field the watermark logic must ignore (metadata.source: 8 values incl. the "
+        "empty string and look-alikes, event_type, payload data - empty / 300 fields / a field called \"timestamp\" with another value / Null / NaN -, "
+        "the text of the id, metadata.sequence, metadata.tags): every timestamp sequence of length <=3 over 0..2 with every assignment of 3 sources "
+        "under 5 watermark x 3 late strategies, and 6000 cases sampled from ALL the families above re-offered with 2..4 sources dealt at random / "
+        "alternating / one straggler / one per event, or with varied types / payloads / id texts / sequence numbers / tags; the driver drops the "
+        "decoration (the model sees position, timestamp, clock reading) and the oracle is unchanged. Each case is run on WatermarkedStream (real code) and on the Lean model; "
         "observations after every add_event are diffed and the Spec predicate C13.runOk is evaluated on the "
         "implementation's observations. A case is non-trivial when at least one event was late; distinct = distinct case text.")
 TRUSTED = [
@@ -36,7 +42,9 @@ ASSUMPTIONS = [
     "timestamps are u64 milliseconds modelled as Nat; saturating_sub = Nat subtraction",
     "a configured Duration (secs: u64, nanos < 10^9) enters the model as the effective delay C13.durMillisU64 secs nanos = `d.as_millis() as u64` "
     "(computed by the driver from the case text; the theorems are parametric in the delay)",
-    "event identity = caller-assigned id (StreamEvent.id), unique per case",
+    "event identity = caller-assigned id (StreamEvent.id), unique per case (any text: the harness maps the id text back to the event's position)",
+    "source, event_type, data, sequence and tags of an event are not inputs of the model: the harness varies them (decoration family) and the "
+    "implementation's observations must still equal the model's and satisfy C13.runOk",
 ]
 
 
